@@ -43,6 +43,33 @@ func runC10(c *core.Ctx) core.Meta {
 	checkPhysicalLayout(c, pint, prov)
 	checkRoundRobinCursors(c, pint)
 
+	// ---------------- R10.17 the buddy allocator frees blocks by their start ----------------
+	st17 := c.Rule("R10.17", "in the buddy allocator a block is returned as a whole when its last page comes back, and it is returned by its start: every call of deviceBuddyMemoryState.freeBlock from outside freeBlock passes the initialAddr recorded in the block's tracker (a load of blockTracker.initialAddr). Passing the address of the page that happened to come back last merges buddies around the middle of the block: its first pages are never free again and neighbouring live blocks are handed out a second time", 1)
+	if fb := c.MustFunc("R10.17", drvIntPkg, "deviceBuddyMemoryState.freeBlock"); fb != nil {
+		for _, fn := range pint.Funcs {
+			if fn == fb {
+				continue
+			}
+			for _, b := range fn.Blocks {
+				for _, in := range b.Instrs {
+					cc := core.CallOf(in)
+					if cc == nil || cc.StaticCallee() != fb || len(cc.Args) != 2 {
+						continue
+					}
+					st17.Instances++
+					c.MarkAnalysed(fn)
+					f := core.LoadedField(core.StripConv(cc.Args[1]))
+					ok := f != nil && f.Name() == "initialAddr"
+					st17.Ob(ok)
+					st17.Sample("%s: freeBlock(%s)", core.FuncName(fn), short(prov.Of(cc.Args[1])))
+					if !ok {
+						c.ReportAt("R10.17", fn, in.Pos(), "freeBlock:not-block-start:"+core.FuncName(fn), core.FuncName(fn)+" frees a buddy block by "+short(prov.Of(cc.Args[1]))+", which is not the start recorded in the block's tracker (blockTracker.initialAddr): when the pages of a multi-page block come back in any order but last-page-first, the block is merged around an inner page - its leading pages are lost and live neighbours are handed out again")
+					}
+				}
+			}
+		}
+	}
+
 	// ---------------- R10.16 a device's free list holds its own pages only ----------------
 	st16 := c.Rule("R10.16", "the free list of a device is filled with the pages [initialAddress, initialAddress + storageSize): in every loop of the allocator package whose counter advances by the page size and is compared with a bound derived from the device's storage size, the comparison excludes the bound (counter < bound). With <= the list gets one extra entry, the first page of the next device (or an address no device owns): it is handed out once the device has served as many allocations as it has pages, aliases the neighbour's first page and is returned to the neighbour's list by Free", 1)
 	for _, fn := range pint.Funcs {
